@@ -667,7 +667,7 @@ func ruleN2(p *Prog, r *Report) {
 			if u, ok := cond.(*ssa.UnOp); ok && u.Op == token.NOT {
 				cond, neg = u.X, true
 			}
-			if c, ok := cond.(*ssa.Call); ok && calleeName(c) == "equal" && typeName(callRecv(c).Type()) == "ValueID" {
+			if c, ok := cond.(*ssa.Call); ok && (calleeName(c) == "equal" && callRecv(c) != nil && typeName(callRecv(c).Type()) == "ValueID" || isIdentityHelper(c.Call.StaticCallee(), 0)) {
 				if neg {
 					blessed[[2]int{b.Index, 1}] = true
 				} else {
@@ -1451,4 +1451,71 @@ func (p *Prog) isMapKeyStorable(v ssa.Value, depth int) bool {
 		}
 	}
 	return true
+}
+
+// isIdentityHelper: g is a private predicate that can answer true only with the result of a ValueID.equal test:
+// every return is the constant false, the direct result of ValueID.equal (or of another identity helper), or the
+// constant true on the true edge of such a test.
+func isIdentityHelper(g *ssa.Function, depth int) bool {
+	if g == nil || depth > 2 || len(g.Blocks) == 0 || g.Pkg == nil || g.Pkg.Pkg.Path() != rootPkgPath {
+		return false
+	}
+	res := g.Signature.Results()
+	if res.Len() != 1 {
+		return false
+	}
+	if b, ok := res.At(0).Type().Underlying().(*types.Basic); !ok || b.Kind() != types.Bool {
+		return false
+	}
+	isEq := func(v ssa.Value) bool {
+		c, ok := canon(v).(*ssa.Call)
+		if !ok {
+			return false
+		}
+		if calleeName(c) == "equal" && callRecv(c) != nil && typeName(callRecv(c).Type()) == "ValueID" {
+			return true
+		}
+		return isIdentityHelper(c.Call.StaticCallee(), depth+1)
+	}
+	sawEq := false
+	var okVal func(v ssa.Value, b *ssa.BasicBlock, d int) bool
+	okVal = func(v ssa.Value, b *ssa.BasicBlock, d int) bool {
+		if d > 4 {
+			return false
+		}
+		v = canon(v)
+		if c, ok := v.(*ssa.Const); ok && c.Value != nil {
+			if c.Value.String() == "false" {
+				return true
+			}
+			// constant true: only on the true edge of an identity test
+			for dd := b; dd != nil; dd = dd.Idom() {
+				ifi, ok := dd.Instrs[len(dd.Instrs)-1].(*ssa.If)
+				if ok && isEq(ifi.Cond) && edgeDominates(dd, 0, b) {
+					sawEq = true
+					return true
+				}
+			}
+			return false
+		}
+		if isEq(v) {
+			sawEq = true
+			return true
+		}
+		if ph, ok := v.(*ssa.Phi); ok {
+			for i, e := range ph.Edges {
+				if !okVal(e, ph.Block().Preds[i], d+1) {
+					return false
+				}
+			}
+			return true
+		}
+		return false
+	}
+	for _, ret := range returnsOf(g) {
+		if len(ret.Results) != 1 || !okVal(ret.Results[0], ret.Block(), 0) {
+			return false
+		}
+	}
+	return sawEq
 }
